@@ -151,7 +151,9 @@ def run(ck):
         checker_cmd="bin/check C08 (gen -> make -C coq theories/Props/C08.vo -> Print Assumptions audit -> "
                     "harness jsonx -mode c08 in watched child processes vs vm_compute of Jsonx/Corr.v)",
         trusted=J.TRUSTED,
-        rule="fixed failing inputs first; every prefix of 12 documents; single-token deletions and insertions; all "
+        rule="fixed failing inputs first; documents with 19, 20, 21, 22, 40 errors of each kind (bad type name, missing "
+             "comma, no operand, bad object entry, sign without number, missing separator, lexing errors, unknown type) "
+             "followed by each kind of truncated tail; every prefix of 12 documents; single-token deletions and insertions; all "
              "token sequences of length <= 3 over a 16/12/8-symbol alphabet rendered to text; seeded (splitmix64) "
              "malformed bytes, invalid UTF-8, mutated documents, generated valid documents and their cuts; command "
              "lines. Each input is run through DecodeSeries / Unmarshal / ToJSON / the token chain / strtoken.Parse. "
